@@ -1,5 +1,6 @@
 import SafeC.Proofs.Alloc
 import SafeC.Proofs.AllocNorm
+import SafeC.Proofs.AllocTight
 /-!
 # Property theorems for C20 — running out of memory inside the library is an error, not a crash
 
@@ -31,6 +32,13 @@ failed one of the allocation requests the run made — this is what "some alloca
 theorem alloc_failed_iff_oracle {α : Type} (p : Prog α) (s s' : St) (a : α) (h : exec fails p s = .ok (a, s')) :
     s.nfail < s'.nfail ↔ ∃ i, s.next ≤ i ∧ i < s'.next ∧ fails i = true :=
   exec_nfail_iff p s h
+
+/-- Meta-theorem (every program): a run depends on the failure oracle only through its answers to the requests the run
+makes — two oracles that agree on `[s.next, s'.next)` give the same run. -/
+theorem run_depends_on_asked_indices_only {α : Type} {fails' : Nat → Bool} (p : Prog α) (s s' : St) (a : α)
+    (h : exec fails p s = .ok (a, s')) (hag : ∀ i, s.next ≤ i → i < s'.next → fails' i = fails i) :
+    exec fails' p s = .ok (a, s') :=
+  exec_oracle_congr p s h hag
 
 /-! ### wcsicmp_s, wcsnatcmp_s: the two fold buffers -/
 
@@ -209,14 +217,26 @@ theorem reorder_safe_witness :
     ¬ Safe (exec (fun _ => true) (reorderProg unrepaired .caller 64 (false :: List.replicate 11 true)) {}) :=
   not_safe_of_null (by decide +kernel)
 
-/-- PARTIAL (code as it is, no request failing): a call that returns success leaves no block behind.
-Full statement (false today, see the witness): `NoLeak` on every return. -/
-theorem reorder_noleak_partial (hnf : NoFail fails) (dmax : Nat) (cells : List Bool) (s s' : St) (o : Out)
+/-- FULL (code as it is) — tightness of `reorder_safe_partial`: under EVERY oracle, a run of the unrepaired
+wcsnorm_reorder_s that survives contains no failed allocation request: a refused malloc is dereferenced at once
+(memcpy), a refused realloc at the next store.  (So `Reported` holds of it only vacuously.) -/
+theorem reorder_failure_never_survives (dmax : Nat) (cells : List Bool) (s s' : St) (o : Out)
+    (he : exec fails (reorderProg unrepaired .caller dmax cells) s = .ok (o, s')) :
+    ¬ ∃ i, s.next ≤ i ∧ i < s'.next ∧ fails i = true := by
+  intro hex
+  have h1 := (exec_nfail_iff _ _ he).2 hex
+  have h2 := keeps_reorderProg unrepaired rfl .caller dmax cells fails s o s' he
+  omega
+
+/-- PARTIAL (code as it is, EVERY oracle): a call that returns success leaves no block behind.
+Full statement (false today, see the witness): `NoLeak` on every return, including the error returns. -/
+theorem reorder_noleak_partial (dmax : Nat) (cells : List Bool) (s s' : St) (o : Out)
     (he : exec fails (reorderProg unrepaired .caller dmax cells) s = .ok (o, s')) (hok : o.failed = false) :
     s'.live = s.live := by
-  have := (wp_iff _ _ _).1 (reorderProg_wp (fails := fails) (L := s.live) unrepaired .caller dmax cells s (Or.inr hnf) rfl trivial)
+  have he' := keeps_transfer (keeps_reorderProg unrepaired rfl .caller dmax cells) he
+  have := (wp_iff _ _ _).1 (reorderProg_wp (fails := fun _ => false) (L := s.live) unrepaired .caller dmax cells s (Or.inr (fun _ => rfl)) rfl trivial)
   obtain ⟨o1, s1, he1, p1, _⟩ := this
-  rw [he] at he1; cases he1
+  rw [he'] at he1; cases he1
   exact p1 hok
 
 /-- WITNESS: 12 marks on one starter into dmax = 13: the "dmax too small" exit returns ESNOSPC with seq_ext still
@@ -251,13 +271,24 @@ theorem compose_safe_witness :
     ¬ Safe (exec (fun i => i == 1) (composeProg unrepaired .caller .caller 64 (⟨false, false⟩ :: List.replicate 16 ⟨true, false⟩)) {}) :=
   not_safe_of_null (by decide +kernel)
 
-/-- PARTIAL (code as it is, no request failing): a successful return leaves no block behind.  Full statement false today. -/
-theorem compose_noleak_partial (hnf : NoFail fails) (dmax : Nat) (cells : List CCell) (s s' : St) (o : Out)
+/-- FULL (code as it is) — tightness of `compose_safe_partial`: under EVERY oracle, a surviving run of the unrepaired
+wcsnorm_compose_s contains no failed allocation request. -/
+theorem compose_failure_never_survives (dmax : Nat) (cells : List CCell) (s s' : St) (o : Out)
+    (he : exec fails (composeProg unrepaired .caller .caller dmax cells) s = .ok (o, s')) :
+    ¬ ∃ i, s.next ≤ i ∧ i < s'.next ∧ fails i = true := by
+  intro hex
+  have h1 := (exec_nfail_iff _ _ he).2 hex
+  have h2 := keeps_composeProg unrepaired rfl .caller .caller dmax cells fails s o s' he
+  omega
+
+/-- PARTIAL (code as it is, EVERY oracle): a successful return leaves no block behind.  Full statement false today (witness). -/
+theorem compose_noleak_partial (dmax : Nat) (cells : List CCell) (s s' : St) (o : Out)
     (he : exec fails (composeProg unrepaired .caller .caller dmax cells) s = .ok (o, s')) (hok : o.failed = false) :
     s'.live = s.live := by
-  have := (wp_iff _ _ _).1 (composeProg_wp (fails := fails) (L := s.live) unrepaired .caller .caller dmax cells s (Or.inr hnf) rfl trivial trivial)
+  have he' := keeps_transfer (keeps_composeProg unrepaired rfl .caller .caller dmax cells) he
+  have := (wp_iff _ _ _).1 (composeProg_wp (fails := fun _ => false) (L := s.live) unrepaired .caller .caller dmax cells s (Or.inr (fun _ => rfl)) rfl trivial trivial)
   obtain ⟨o1, s1, he1, p1, _⟩ := this
-  rw [he] at he1; cases he1
+  rw [he'] at he1; cases he1
   exact p1 hok
 
 /-- WITNESS: a starter with 12 uncomposable marks into dmax = 1: the ESNOSPC exit behind the starter leaks seq_ext. -/
@@ -306,5 +337,12 @@ theorem norm_noleak_partial (hnf : NoFail fails) (x : NormFeat) (s s' : St) (o :
 example : verdict (exec (fun _ => false) (normProg unrepaired ⟨false, .nfc, 200, 126, List.replicate 126 false, List.replicate 126 ⟨false, false⟩⟩) {}) = some (false, 0, false, 0) ∧
     liveAtReturn (exec (fun _ => false) (normProg unrepaired ⟨false, .nfc, 200, 126, List.replicate 126 false, List.replicate 126 ⟨false, false⟩⟩) {}) = some [] := by
   constructor <;> decide +kernel
+
+/-- remark: unlike the two loops, the unrepaired wcsnorm_s CAN survive a refused scratch malloc — when the decomposed text
+has more than RSIZE_MAX_WSTR - 2 cells the reorder step rejects its (NULL) destination on the size check before
+touching it, and the failure is reported (handler, dest cleared, nothing leaked): failed = true, 1 handler call,
+cleared, 1 failed request. -/
+example : verdict (exec (fun _ => true) (normProg unrepaired ⟨false, .nfc, 1024, 1023, List.replicate 1023 false, []⟩) {}) = some (true, 1, true, 1) := by
+  decide +kernel
 
 end SafeC.Props.C20
